@@ -55,6 +55,10 @@ pub fn decimal_strcmp(a: &str, b: &str) -> Option<Ordering> {
 /// * `b` - Second number string (digits only, no sign)
 /// * `b_neg` - Whether second number is negative
 pub fn decimal_strcmp_with_sign(a: &str, a_neg: bool, b: &str, b_neg: bool) -> Ordering {
+    // Zero has no sign: "-0", "+0" and "0" are the same number
+    let a_neg = a_neg && !is_zero_magnitude(a);
+    let b_neg = b_neg && !is_zero_magnitude(b);
+
     // Different signs: negative < positive
     match (a_neg, b_neg) {
         (true, false) => return Ordering::Less,
@@ -111,6 +115,10 @@ pub fn realnum_strcmp(a: &str, b: &str) -> Option<Ordering> {
 
 /// Compare two real number strings with pre-parsed signs
 pub fn realnum_strcmp_with_sign(a: &str, a_neg: bool, b: &str, b_neg: bool) -> Ordering {
+    // Zero has no sign: "-0.0", "+0" and "0" are the same number
+    let a_neg = a_neg && !is_zero_magnitude(a);
+    let b_neg = b_neg && !is_zero_magnitude(b);
+
     // Different signs: negative < positive
     match (a_neg, b_neg) {
         (true, false) => return Ordering::Less,
@@ -118,17 +126,14 @@ pub fn realnum_strcmp_with_sign(a: &str, a_neg: bool, b: &str, b_neg: bool) -> O
         _ => {}
     }
 
-    // Find decimal point positions
-    let a_dot = a.find('.').unwrap_or(a.len());
-    let b_dot = b.find('.').unwrap_or(b.len());
+    // Split into integer and fractional digits
+    let (a_int, a_frac) = split_at_dot(a);
+    let (b_int, b_frac) = split_at_dot(b);
 
-    let cmp = if a_dot == b_dot {
-        // Same integer part length - lexicographic comparison works
-        a.cmp(b)
-    } else {
-        // Different integer part lengths - longer integer part is larger
-        a_dot.cmp(&b_dot)
-    };
+    // Integer parts compare as decimal integers (leading zeros ignored); on a tie the
+    // fractional digits compare lexicographically once trailing zeros are dropped
+    let cmp = compare_decimal_magnitude(a_int, b_int)
+        .then_with(|| trim_trailing_zeros(a_frac).cmp(trim_trailing_zeros(b_frac)));
 
     // For negative numbers, reverse the comparison
     if a_neg {
@@ -164,6 +169,29 @@ fn parse_sign(s: &str) -> Option<(&str, bool)> {
         }
         _ => Some((s, false)),
     }
+}
+
+// Helper: true if the unsigned digit string (with optional dot) denotes zero
+fn is_zero_magnitude(s: &str) -> bool {
+    s.bytes().all(|c| c == b'0' || c == b'.')
+}
+
+// Helper: split an unsigned real number string into (integer digits, fraction digits)
+fn split_at_dot(s: &str) -> (&str, &str) {
+    match s.bytes().position(|c| c == b'.') {
+        Some(pos) => (&s[..pos], &s[pos + 1..]),
+        None => (s, ""),
+    }
+}
+
+// Helper: fraction digits without trailing zeros ("50" and "5" denote the same fraction)
+fn trim_trailing_zeros(frac: &str) -> &[u8] {
+    let bytes = frac.as_bytes();
+    let mut end = bytes.len();
+    while end > 0 && bytes[end - 1] == b'0' {
+        end -= 1;
+    }
+    &bytes[..end]
 }
 
 // Helper: validate real number string (digits and at most one dot)
